@@ -14,6 +14,7 @@ struct shim_resp {
 	uint8_t * body;		/* owned by the callee (free it) */
 };
 typedef int (*shim_http_cb)(void * cookie, const struct shim_resp * r /* NULL = failure */);
+void shim_http_tls(const char *host); /* NULL (default): http_request; otherwise https_request(..., host) for the requests that follow */
 void * shim_http_request(void * addrs, const char * method, const char * path, size_t nh,
     const char ** hn, const char ** hv, const uint8_t * body, size_t bodylen, size_t maxrlen,
     shim_http_cb cb, void * cookie);
